@@ -10,6 +10,8 @@ package py
 
 import (
 	"fmt"
+	"math"
+	"math/big"
 	"reflect"
 	"strings"
 )
@@ -126,10 +128,29 @@ func IndexInt(a Object) (int, error) {
 	return intI, nil
 }
 
+// Index the python Object for use as a slice bound or step
+//
+// As IndexInt, but an integer which does not fit into an int is
+// clipped to the largest or smallest int instead of raising an
+// error, the way _PyEval_SliceIndex does: a[:2**100] means "to the end".
+func IndexIntClamped(a Object) (int, error) {
+	if b, ok := a.(*BigInt); ok {
+		if (*big.Int)(b).Sign() < 0 {
+			return math.MinInt, nil
+		}
+		return math.MaxInt, nil
+	}
+	return IndexInt(a)
+}
+
 // As IndexInt but if index is -ve addresses it from the end
 //
 // If index is out of range throws IndexError
 func IndexIntCheck(a Object, max int) (int, error) {
+	if _, ok := a.(*BigInt); ok {
+		// cannot fit into an index-sized integer: out of range for every sequence
+		return 0, ExceptionNewf(IndexError, "index out of range")
+	}
 	i, err := IndexInt(a)
 	if err != nil {
 		return 0, err
